@@ -69,12 +69,31 @@ CHECKS = [
   "note": "Trusts the long-double DFT reference and exact conversion of each form to samples; Quantity/Time requests exactly on the "
           "boundary and the start_time of empty results are left open.",
   "technique": "bounded exhaustive enumeration of inputs on the real code, complete-basis operator identification against a long-double DFT reference model"},
+ {"property_id": "C13",
+  "text": "Bounded exhaustive exploration: EVERY (X,Y) pair with real/imaginary parts from a 7-value dyadic grid (2401 pairs; 9 "
+          "values thorough) x both starting bases x complex64/128 x 5-7 (nchan, alignment) configurations x trailing dims x "
+          "NumPy and three Dask layouts (single chunk, multi-chunk, chunked along the polarisation axis): to_circular/to_linear "
+          "values, unitarity, round trip, identity in own basis, Stokes from either basis, I^2=Q^2+U^2+V^2, I>=0, "
+          "to_intensity, component access by name and attribute, types and metadata.",
+  "note": "Trusts long-double evaluation of the documented formulas on exactly representable inputs; budget 8 eps(dtype) max|.| "
+          "(16 eps max^2 for quadratic quantities).",
+  "technique": "exhaustive enumeration of a finite value grid and configuration space on the real code against an exact formula model"},
  {"property_id": "C18",
   "text": "Exhaustive enumeration on the real functions: every N below 2^20 (quick) / 2^23 (thorough), N in {s-1,s,s+1} around "
           "7-smooth s below 2^62, and fast_len on every signal length 0..200 of every class; each result compared with an "
           "independently generated sorted list of all 7-smooth numbers. Complete within the stated bounds, silent outside them.",
   "note": "Trusts the nested-multiplication generator of the smooth list (self-checked against trial division in setup) and Python big-int arithmetic.",
   "technique": "bounded exhaustive enumeration of inputs on the real code against a reference model (explicit-state, one state per input)"},
+ ]
+CHECKS += [
+ {"property_id": "C19",
+  "text": "Bounded exhaustive exploration of real_to_complex: N in 0..16 (33 thorough) x EVERY vector of {-1,0,1}^N for N<=7 (full "
+          "basis, all pairwise sums/differences, alternating and constant vectors above) x 11 real dtypes x rank 1..3 x every axis "
+          "incl. negative; output compared with the definition (analytic weights, quarter-rate mix, decimation) through "
+          "long-double DFT matrices; shape, dtype rule, real-part identity, tone mapping w -> w-N/4, linearity, complex refused.",
+  "note": "Trusts the long-double DFT matrices; accuracy demanded at single precision for float16/float32 inputs (scipy.fft "
+          "computes half precision in single), double otherwise.",
+  "technique": "exhaustive enumeration of all small input vectors and layouts on the real code against a long-double reference model"},
 ]
 _ALL = ["C%02d" % i for i in range(1, 21)]
 NOT_APPLICABLE = [{"property_id": p, "reason": "check not yet built in this session (planned in DESIGN.md; no claim made yet)"}
